@@ -105,8 +105,11 @@ class Lin:
 
     # ------------------------------------------------------------ facts
     def facts_of_path(self, p):
+        return self.facts_of_cons(p.cons)
+
+    def facts_of_cons(self, cons):
         out = []
-        for k, c in p.cons.items():
+        for k, c in cons.items():
             k = self.expand(k)
             if k[0] == "cmp" and c[0] == "eq":
                 a = self.of_value(k[2])
